@@ -11,4 +11,6 @@ func Available() bool { return false }
 
 func install(h func(fid int), b func()) {}
 
+func installU(u func()) {}
+
 func funcNames() []string { return nil }
